@@ -19,6 +19,19 @@ def run_one(pid, m):
         if src.count(m["old"]) != 1:
             return dict(id=m["id"], status="stale", note="pattern matches %d times" % src.count(m["old"]))
         open(path, "w").write(src.replace(m["old"], m["new"]))
+        for f, imp in m.get("imports", {}).items():
+            fp = os.path.join(r, f); t = open(fp).read()
+            if '"%s"' % imp not in t:
+                if "import (" in t:
+                    t = t.replace("import (", 'import (\n\t"%s"' % imp, 1)
+                elif "\nimport " in t:
+                    t = t.replace("\nimport ", '\nimport "%s"\nimport ' % imp, 1)
+                else:
+                    import re as _re
+                    t = _re.sub(r"(?m)^(package \w+)$", r'\1\n\nimport "%s"' % imp, t, count=1)
+                open(fp, "w").write(t)
+        for f, txt in m.get("append", {}).items():
+            open(os.path.join(r, f), "a").write(txt)
         b = subprocess.run("go build ./...", cwd=r, env=ENV, shell=True, stdout=subprocess.PIPE, stderr=subprocess.STDOUT)
         if b.returncode != 0:
             return dict(id=m["id"], status="stale", note="does not compile: " + b.stdout.decode()[-200:])
@@ -27,7 +40,14 @@ def run_one(pid, m):
         viol = [l for l in out.splitlines() if l.startswith("VIOLATION")]
         hit = [l for l in viol if m["expect"] in l]
         if hit:
-            return dict(id=m["id"], status="detected", rule=m["expect"], line=hit[0].split(" replay=")[1].split(" ", 1)[1][:220])
+            keys = []
+            import glob
+            for rp in sorted(glob.glob(os.path.join(vv, "out", "replay", "*.json"))):
+                try:
+                    keys.append(json.load(open(rp))["key"])
+                except Exception:
+                    pass
+            return dict(id=m["id"], status="detected", rule=m["expect"], line=hit[0].split(" replay=")[1].split(" ", 1)[1][:220], keys=[k for k in keys if m["expect"] in k][:3])
         return dict(id=m["id"], status="MISSED", rule=m["expect"], other=[l[:160] for l in viol][:3])
     finally:
         subprocess.run(["git", "-C", "/repo", "worktree", "remove", "--force", r], stdout=subprocess.DEVNULL, stderr=subprocess.DEVNULL)
